@@ -69,16 +69,17 @@ def flatten : Handler := fun j => do
 /-- `c15.dump`: the raw dump before post-processing. -/
 def dump : Handler := fun j => do
   let t ← getTree j
-  pure (Json.mkObj [("lines", linesJson (dumpS [] [] (onTheFly implCfg t) HashState.reset).1)])
+  pure (Json.mkObj [("lines", linesJson (dumpS [] [] (prep implCfg t) HashState.reset).1)])
 
 /-- `c15.spec`: the flat AST the property describes. -/
 def spec : Handler := fun j => do
   let t ← getTree j
-  let t1 := onTheFly implCfg t
+  let t1 := prep implCfg t
   pure (Json.mkObj [("lines", linesJson (specFlatten t)),
     ("wf_unquote", Json.bool (wfUnquote t1)), ("wf_kinds", Json.bool (wfKinds t1)),
     ("wf_posonly", Json.bool (wfPosonly [] t1)), ("wf_alias", Json.bool (wfAlias [] t1)),
     ("wf_stages4", Json.bool (wfStages4 t1)), ("wf_stages6", Json.bool (wfStages6 t1)),
+    ("repr_is_dumpNoCtx", Json.bool (reprsAreDumps t)),
     ("stage6_eq_tweak", Json.bool (dumpP id [] [] (stage6 t1) == dumpP id [] [] (tweak [] t1)))])
 
 /-- `c15.seq`: a sequence of flattenings threading the factory state (indices into `trees`). -/
